@@ -36,15 +36,15 @@ M = [
  ("m09", "C13", "skiplist/skiplist.go", "\t\t\tif delNode.dcasNext(i, next, next, false, true) && i == 0 {", "\t\t\tif delNode.dcasNext(i, next, next, false, true) || i == 0 {", "softDelete reports success to every caller that reaches level 0"),
  ("m10", "C14", "skiplist/skiplist.go", "\t\tsts.AddInt64(&sts.softDeletes, -1)\n", "", "soft-delete statistic never decremented"),
  ("m11", "C16", "skiplist/access_barrier.go", "\t\tif liveCount > barrierFlushOffset {", "\t\tif liveCount > barrierFlushOffset+1 {", "Acquire back-off test off by one"),
- ("m12", "C17", "skiplist/access_barrier.go", "\t\t\t\t\tif ab.hasDueSession(buf) {\n\t\t\t\t\t\tgoto retry\n\t\t\t\t\t}\n", "", "re-check after releasing the try-lock removed (lost wake-up returns)"),
+ ("m12", "C17", "skiplist/access_barrier.go", "\t\t\t\t\tif ab.hasDueSession(buf) {\n", "\t\t\t\t\tif false && ab.hasDueSession(buf) {\n", "re-check after releasing the try-lock removed (lost wake-up returns)"),
  ("m13", "C18", "skiplist/builder.go", "\t\t\t} else if head[l] == nil && seg.head[l] != nil {", "\t\t\t} else if seg.head[l] != nil {", "Assemble overwrites the head of a level when an earlier tail is missing"),
  ("m14", "C19", "item.go", "\tbinary.BigEndian.PutUint32(buf[0:4], uint32(itm.dataLen))", "\tbinary.BigEndian.PutUint32(buf[0:4], uint32(itm.dataLen)&0xffffff)", "length prefix truncated to 24 bits (items >= 16 MiB)"),
  ("m15", "C20", "nodetable/table.go", "\t\t\t\tnt.fastHT[res.hash] = encodePointer(decodePointer(nt.fastHT[res.hash]), false)\n\t\t\t\tnt.conflicts--", "\t\t\t\tnt.conflicts--", "conflict bit not cleared when the overflow slice empties"),
  ("m16", "C03", "nitro.go", "\tsuccess = atomic.CompareAndSwapUint32(&gotItem.deadSn, 0, sn)\n", "\tsuccess = gotItem.deadSn == 0\n\tgotItem.deadSn = sn\n", "deadSn stamped without compare-and-swap: two deleters both win"),
  ("m17", "C04", "nitro.go", "\tbarrier := w.store.GetAccesBarrier()\n\ttoken := barrier.Acquire()\n\tdefer barrier.Release(token)\n\n\tif n := w.GetNode(bs); n != nil {", "\tif n := w.GetNode(bs); n != nil {", "Delete2 no longer holds a token across lookup and delete"),
  ("m18", "C07", "nitro.go", "\t} else {\n\t\tw.freeItem(x)\n\t\tn = nil\n\t}", "\t} else {\n\t\tn = nil\n\t}", "a rejected Put leaks its item"),
- ("m19", "C15", "skiplist/iterator.go", "\t\t\tif found && last == it.curr {\n\t\t\t\tgoto retry\n\t\t\t}\n", "", "iterator does not retry when its re-search finds the same marked node"),
- ("m20", "C05", "nitro.go", "\t\t\tif err := w.WriteItem(itm); err != nil {\n\t\t\t\treturn err\n\t\t\t}\n", "\t\t\tw.WriteItem(itm)\n", "backup ignores item write errors"),
+ ("m19", "C15", "skiplist/iterator.go", "\t\t\tif found && last == it.curr {\n", "\t\t\tif false && found && last == it.curr {\n", "iterator does not retry when its re-search finds the same marked node"),
+ ("m20", "C12", "nitro.go", "\t\tif err := w.WriteItem(itm); err != nil {\n\t\t\treturn err\n\t\t}\n", "\t\tw.WriteItem(itm)\n", "backup ignores item write errors"),
  ("m21", "C09", "iterator.go", "\t\tit.iter.Seek(unsafe.Pointer(itm))\n\t\tit.skipUnwanted()", "\t\tit.iter.Seek(unsafe.Pointer(itm))", "Refresh no longer skips invisible versions (with the exact comparator it lands exactly anyway?)"),
  ("m22", "C09", "nitro.go", "\t\tv = int(thisItem.bornSn) - int(thatItem.bornSn)", "\t\tv = int(thatItem.bornSn) - int(thisItem.bornSn)", "versions of a key ordered newest first"),
  ("m24", "C05", "nitro.go", "\t\tif itm.bornSn <= ctx.sn && itm.deadSn > ctx.sn {", "\t\tif itm.bornSn < ctx.sn && itm.deadSn > ctx.sn {", "delta writer skips items born in the stored snapshot's own epoch (needs GC of such an item during a delta backup, before the scan reaches it)"),
